@@ -6,3 +6,7 @@ package verifhook
 
 // Point marks a place where a background job hands over to the service loop.
 func Point(owner any, name string, args ...any) {}
+
+// Skip lets the harness pass over an eligible candidate where the service takes the first one a map
+// iteration yields.  Without the build tag it is constant false.
+func Skip(owner any, name string, args ...any) bool { return false }
